@@ -56,17 +56,15 @@ class _Expand(ast.NodeTransformer):
         if isinstance(node.ctx, ast.Load) and node.id in self.locals and self.depth > 0:
             v = A.single_def(self.fn, node.id)
             if v is not None:
-                import copy as _copy
                 sub = _Expand(self.fn, self.depth - 1)
-                return sub.visit(_copy.deepcopy(v))
+                return sub.visit(A._clone(v, {}))
         return node
 
 
 def expanded_src(fn, node):
     """Source of *node* with every single-assignment local of fn replaced by its defining expression:
     the text no longer depends on how (or whether) fn names its intermediate values."""
-    import copy as _copy
-    return A.src(_Expand(fn).visit(_copy.deepcopy(node)))
+    return A.src(_Expand(fn).visit(A._clone(node, {})))
 
 
 def stable_name(fn, node, ordinal=0):
